@@ -73,7 +73,14 @@ func (f *frame) instr(in ssa.Instruction) {
 		// closure value: opaque reference; bindings may escape, unless the closure is only
 		// called or deferred right here (its body is then encoded inline)
 		if !closureLocal(x) {
-			for _, b := range x.Bindings {
+			for i, b := range x.Bindings {
+				// a captured variable that the closure only reads keeps its value however
+				// often and from wherever the closure is called
+				if cf, ok := x.Fn.(*ssa.Function); ok && i < len(cf.FreeVars) && freeVarReadOnly(cf, cf.FreeVars[i]) {
+					if _, isAlloc := b.(*ssa.Alloc); isAlloc {
+						continue
+					}
+				}
 				f.escape(b)
 			}
 		}
@@ -125,6 +132,26 @@ func (f *frame) newRef() string {
 
 func (f *frame) allocRef(v ssa.Value) {
 	f.set(v, f.newRef())
+}
+
+// freeVarReadOnly: the closure body uses the captured variable only by loading from it.
+func freeVarReadOnly(fn *ssa.Function, fv *ssa.FreeVar) bool {
+	refs := fv.Referrers()
+	if refs == nil {
+		return false
+	}
+	for _, r := range *refs {
+		switch y := r.(type) {
+		case *ssa.UnOp:
+			if y.Op != token.MUL {
+				return false
+			}
+		case *ssa.DebugRef:
+		default:
+			return false
+		}
+	}
+	return true
 }
 
 // closureLocal: the closure value is used only as the callee of calls and defers of the
